@@ -48,6 +48,13 @@ CLAIMED["C16"] = {
     "design_ref": "7 (C16)",
 }
 
+CLAIMED["C15"] = {
+    "technique": "Coq proofs about a hand model of core.description and catalog.Annotation (no CR, trimmed, exact fixed-point characterisation desc_fixed_iff, bare = parenthesised, annotation collapsed/idempotent; idempotence and dedent refuted by computed witnesses and proved under the exact guard), exhaustive extracted-model vs implementation correspondence",
+    "text": "The normalisers are modelled byte for byte (including bytes.TrimSpace on UTF-8 white space) and compared exhaustively over an 8-byte alphabet; every statement of the property is a theorem, or a _refuted theorem with the counterexample class listed as a known finding plus a _partial theorem under the exact guard.",
+    "note": "Trusted: Coq kernel, extraction + OCaml driver, harness. The scanner's delimitation of the text lexeme is covered by the scanner table theorems and the lexeme-stream correspondence (C14).",
+    "design_ref": "7 (C15)",
+}
+
 NOT_YET = {
 }
 
